@@ -659,7 +659,7 @@ PROPS["C07"] = dict(
 
 PROPS["C13"] = dict(
     coq="Properties_C13",
-    level_text="Proved in Coq on the big-step unmarshaller model: completion is signalled only after exactly one complete well-formed value; the model never panics (all partial Go operations are explicit error outcomes); every rendering of a value (any key order, definite or indefinite lengths, either integer spelling) is accepted on its last token and reconstructs the value; the documented rejections are errors. Tied to obj.Unmarshaller token by token: type-directed renderings in varied spellings, every prefix, single-token mutations, all sequences up to length 3 (quick) / 4 (thorough) over a 20-token alphabet against 11 fixed targets.",
+    level_text="Proved in Coq on the big-step unmarshaller model (ObjProof.v): completion is signalled only after exactly one complete well-formed value has been consumed (the consumed tokens are the flattening of a value tree); an error is attributed to one of the tokens given; the verdict and the value depend only on the tokens up to completion / the offending token (frame theorems); the model has no panic outcome — every partial reflect operation is an explicit error. The marshaller's own rendering of every well-typed value is accepted and reconstructs it (C01); acceptance of every other rendering (indefinite lengths, either integer spelling, any key order, present-but-empty omitempty fields, ignored keys) and the documented rejections are RenderProof.v when present and are otherwise covered by the correspondence run. Tied to obj.Unmarshaller token by token: type-directed renderings in varied spellings, every prefix, single-token mutations, all sequences up to length 3 (quick) / 4 (thorough) over a 20-token alphabet against 11 fixed targets.",
     level_note="big-step model; per-Step done/err positions compared by the harness. Trusted as in trusted_base. No axioms.",
     rule="(target type, atlas, token sequence); non-trivial = at least 2 tokens; distinct by payload",
     trusted_base=_OBJ_TB,
@@ -740,8 +740,8 @@ FINDING_CLASSES["json-integral-float-beyond-uint64"] = lambda s, m: _old_kf(s, m
 
 PROPS["C01"] = dict(
     coq="Properties_C01",
-    level_text="Proved in Coq: token-level round trip of the object layer (marshal, then unmarshal of those tokens into a zero value of the same type succeeds and yields a value that marshals to the same tokens), composed with the codec theorems C02 (CBOR bytes read back as the same tokens) and C03/C05 (JSON). Tied to refmt.MarshalAtlased / UnmarshalAtlased end to end: generated types (reflect.StructOf structs, named types, transforms, unions, tags, sort modes), values with boundary numbers, nil/empty containers, both formats with all whitespace options; bytes and the value read back are compared with the model composition, and the harness checks equality-up-to-wire-limits on the real Go values itself.",
-    level_note="token-level theorem states indistinguishability under re-marshalling (the model has no separate notion of Go equality); Go-level equality with the property's exemptions is checked by the harness on every case. Floats through JSON use the shortest-digits oracle. Trusted as in trusted_base. No axioms.",
+    level_text="Proved in Coq on the object-layer models (RoundTripProof.v, all four atlas entry kinds: struct maps with renamed / ignored / omitempty fields and embedded routes, the nine modelled transform pairs incl. transform-typed map keys and a transform to interface{}, keyed unions, map morphisms, tags): for every well-typed value (wt: integers in range of their kind, float32 representable, array lengths, distinct map keys) in the domain (untyped slots hold native values or values of tagged types) marshalling and unmarshalling the resulting tokens into a zero value of the same type consumes exactly those tokens and yields a value related by req — equality except for exactly the property's list: null has no shape, omitted-as-empty fields come back empty, the concrete numeric type inside untyped slots — and well-typed again; each transform pair is proved inverse on its domain. Three configurations outside the domain are exhibited as kernel-checked refutations (a tagged transform around tagged content keeps one tag only; a pointer to a value whose serial form is null; a transform outside its domain). The byte level composes this with C02 (CBOR) and C03/C05 (JSON) and is compared per case. Tied to refmt.MarshalAtlased / UnmarshalAtlased end to end: generated types (reflect.StructOf structs, named types, transforms, unions, tags, sort modes, autogenerated struct maps of Go-source-generated struct families), values with boundary numbers, nil/empty containers, both formats with all whitespace options; bytes and the value read back are compared with the model composition, and the harness checks equality-up-to-wire-limits on the real Go values itself.",
+    level_note="The byte-level end-to-end statement (marshal, encode, decode, unmarshal) is the composition of theorems of different files; its machine-checked form is EndToEndProof.v when present, otherwise the composition is checked per case by the roundtrip suite. Floats through JSON use the shortest-digits oracle. Trusted as in trusted_base. No axioms.",
     rule="(format, options, type, value, atlas); non-trivial = output of at least 3 bytes; distinct by payload",
     trusted_base=_OBJ_TB,
     assumptions=["values in untyped slots are native kinds or values of tagged registered types (CBOR); JSON cases are restricted to JSON's data model"],
@@ -809,7 +809,7 @@ def cmp_c12(payload, impl, model):
 
 PROPS["C12"] = dict(
     coq="Properties_C12",
-    level_text="Proved in Coq on the model composition (marshal, codec, untyped unmarshal, marshal again): token-level statements that the untyped unmarshaller returns a value whose rendering is the canonical form of the tokens it read, so that a second re-marshal reproduces the first byte for byte; composed with the codec round-trip theorems. Tied to refmt.Marshal / Unmarshal(&interface{}) / Marshal end to end: the three documents, the value read back into the original type, the fixpoint and the native-first-round identity are compared with the model pipeline and checked directly on the real bytes.",
+    level_text="Proved in Coq on the object-layer models (RoundTripProof.token_roundtrip_remarshal): the value the unmarshaller returns marshals to exactly the tokens it was read from, provided no omitempty field has a type whose empty value still serializes (omit_ok) and integers in untyped slots already have the type an untyped slot gives them (rmv) — both conditions are shown necessary by kernel-checked refutations (uint8(5) in a slot re-marshals as Int 5; an omitempty pointer to a nil slice is dropped the second time). Since the untyped unmarshaller only produces rmv values, decoding a document into an untyped variable and marshalling again is a fixpoint from the second document on, and the first re-marshal may only re-type numbers — the property's own exception. Composed with the codec round trips (C02; C03/C05) this is the byte-level statement. Tied to refmt.Marshal / Unmarshal(&interface{}) / Marshal end to end: the three documents, the value read back into the original type, the fixpoint and the native-first-round identity are compared with the model pipeline and checked directly on the real bytes.",
     level_note="Trusted as in trusted_base. The JSON float oracle applies. No axioms.",
     rule="(format, type, value, atlas); non-trivial = first document of at least 3 bytes; distinct by payload",
     trusted_base=_OBJ_TB,
